@@ -397,6 +397,33 @@ async fn link_server(
     }
 }
 
+/// Wraps an `Agent` so that the task it returns (the agent implementation's own event loop) is
+/// polled under its own `Jitter`, independently of the runtime tasks it talks to.
+struct JitterAgent<A> {
+    inner: A,
+    rng: Mutex<Rng>,
+    per_mille: u64,
+}
+
+impl<A: swimos_api::agent::Agent> swimos_api::agent::Agent for JitterAgent<A> {
+    fn run(
+        &self,
+        route: swimos_utilities::routing::RouteUri,
+        route_params: HashMap<String, String>,
+        config: AgentConfig,
+        context: Box<dyn swimos_api::agent::AgentContext + Send>,
+    ) -> futures::future::BoxFuture<'static, swimos_api::agent::AgentInitResult> {
+        let init = self.inner.run(route, route_params, config, context);
+        let rng = self.rng.lock().fork();
+        let per_mille = self.per_mille;
+        Box::pin(async move {
+            let task = init.await?;
+            let jittered: swimos_api::agent::AgentTask = Box::pin(Jitter::new(task, rng, per_mille));
+            Ok(jittered)
+        })
+    }
+}
+
 /// Run one case. `store`: when given, the agent runs with persistence against it.
 pub fn run_case<S>(cfg: &Config, script: &[Step], opts: &Options, rng: &mut Rng, store: Option<S>, targets: Vec<(Option<String>, String, String)>) -> Obs
 where
@@ -410,7 +437,11 @@ where
     let rec2 = rec.clone();
     rt.block_on(async move {
         let lifecycle = TestLifecycle { rec: rec2.clone(), targets: Arc::new(targets), commanders: Default::default() };
-        let agent = AgentModel::new(TestAgent::default, lifecycle.into_lifecycle());
+        let agent = JitterAgent {
+            inner: AgentModel::new(TestAgent::default, lifecycle.into_lifecycle()),
+            rng: Mutex::new(rng2.fork()),
+            per_mille: cfg2.agent_jitter_per_mille,
+        };
         let (att_tx, att_rx) = mpsc::channel(8);
         let (_http_tx, http_rx) = mpsc::channel(1);
         let (link_tx, link_rx) = mpsc::channel(8);
